@@ -180,6 +180,37 @@ func init() {
 		},
 		"fmt.Printf":  func(it *Interp, a []Value) Value { return TupleV{int64(0), IfaceV{}} },
 		"fmt.Println": func(it *Interp, a []Value) Value { return TupleV{int64(0), IfaceV{}} },
+		"fmt.Print":   func(it *Interp, a []Value) Value { return TupleV{int64(0), IfaceV{}} },
+		"fmt.Fprintln": func(it *Interp, a []Value) Value { return TupleV{int64(0), IfaceV{}} },
+		"fmt.Fprint":   func(it *Interp, a []Value) Value { return TupleV{int64(0), IfaceV{}} },
+		"fmt.Sprintln": func(it *Interp, a []Value) Value { // operands separated by spaces, newline appended
+			args := it.varargs(a[0])
+			f := ""
+			for i := range args {
+				if i > 0 {
+					f += " "
+				}
+				f += "%v"
+			}
+			s, _ := it.sprintf(f+"\n", args)
+			return s
+		},
+		"fmt.Sprint": func(it *Interp, a []Value) Value { // a space is added between operands when neither is a string
+			args := it.varargs(a[0])
+			f := ""
+			for i := range args {
+				if i > 0 {
+					_, s1 := args[i-1].(IfaceV).v.(*StrV)
+					_, s2 := args[i].(IfaceV).v.(*StrV)
+					if !s1 && !s2 {
+						f += " "
+					}
+				}
+				f += "%v"
+			}
+			s, _ := it.sprintf(f, args)
+			return s
+		},
 		"errors.Is": func(it *Interp, a []Value) Value { return it.errIs(a[0], a[1]) },
 		"path/filepath.Base": func(it *Interp, a []Value) Value { return a[0] },
 		"strings.TrimSpace": func(it *Interp, a []Value) Value {
